@@ -184,6 +184,7 @@ char *get_type_name(char *, char *, int);
 
 void save_file_info(int, int);
 int add_program_file(const char *, int);
+void add_program_missing_file(const char *);
 void yyerror(char *);
 void yywarn(char *);
 void switch_to_block(int);
